@@ -213,7 +213,7 @@ impl FloatEncoding for f32 {
         let mut mantissa = mantissa.unsigned_abs();
 
         let zeros = mantissa.leading_zeros();
-        let top_bit = (u32::BITS - zeros) as i16 + exponent;
+        let top_bit = (u32::BITS - zeros) as i32 + exponent as i32;
 
         if top_bit > 128 {
             // overflow
@@ -238,7 +238,7 @@ impl FloatEncoding for f32 {
             // (this branch includes 1e-125, the smallest positive normal f32)
 
             // first remove the exponent
-            let shift = exponent + 126 + 23;
+            let shift = exponent as i32 + 126 + 23;
             if shift >= 0 {
                 round_bits = 0; // not rounding is required
                 mantissa <<= shift as u32;
@@ -260,7 +260,7 @@ impl FloatEncoding for f32 {
             }
 
             // then calculate the exponent (bias is 127)
-            let exponent = (exponent + 127 + u32::BITS as i16) as u32 - zeros - 1;
+            let exponent = (exponent as i32 + 127 + u32::BITS as i32) as u32 - zeros - 1;
 
             // then compose the bit representation of f32
             bits = (sign << 31) | (exponent << 23) | (mantissa >> 9);
@@ -334,7 +334,7 @@ impl FloatEncoding for f64 {
         let mut mantissa = mantissa.unsigned_abs();
 
         let zeros = mantissa.leading_zeros();
-        let top_bit = (u64::BITS - zeros) as i16 + exponent;
+        let top_bit = (u64::BITS - zeros) as i32 + exponent as i32;
 
         if top_bit > 1024 {
             // overflow
@@ -359,7 +359,7 @@ impl FloatEncoding for f64 {
             // (this branch includes 1e-1022, the smallest positive normal f32)
 
             // first remove the exponent
-            let shift = exponent + 1022 + 52;
+            let shift = exponent as i32 + 1022 + 52;
             if shift >= 0 {
                 round_bits = 0; // not rounding is required
                 mantissa <<= shift as u32;
@@ -382,7 +382,7 @@ impl FloatEncoding for f64 {
             }
 
             // then calculate the exponent (bias is 1023)
-            let exponent = (exponent + 1023 + u64::BITS as i16) as u64 - zeros as u64 - 1;
+            let exponent = (exponent as i32 + 1023 + u64::BITS as i32) as u64 - zeros as u64 - 1;
 
             // then compose the bit representation of f64
             bits = (sign << 63) | (exponent << 52) | (mantissa >> 12);
